@@ -7,8 +7,10 @@ import (
 	"io"
 	"sync"
 
+	"github.com/itchio/lake"
 	"github.com/itchio/lake/tlc"
 	"github.com/itchio/wharf/pwr"
+	"github.com/itchio/wharf/pwr/bowl"
 	"verif/lib"
 )
 
@@ -24,6 +26,9 @@ type c18Spec struct {
 	// Interleave: a second writer of the SAME pool (the other signed file, written with its correct content) is open
 	// at the same time and the two are fed alternately
 	Interleave bool `json:"interleave"`
+	// Via: "" = ValidatingPool.GetWriter directly; "bowl-writer" = through bowl.NewPoolBowl(...).GetWriter (the patcher's
+	// entry writer); "bowl-transpose" = bowl.Transpose copying a target-pool file holding D into the validating pool
+	Via string `json:"via,omitempty"`
 }
 
 var c18SSizes = []int64{0, 1, lib.BS - 1, lib.BS, lib.BS + 1, 2 * lib.BS, 2*lib.BS + 77, 5 * lib.BS}
@@ -116,6 +121,22 @@ func c18Cases(tier string, seed uint64, flavor string) []lib.Case {
 				s := c18Spec{Seed: lib.Mix(seed, 185, uint64(i)), SSize: ss, DKind: dk[0].(string), Arg: dk[1].(int), Slice: sl, Mode: modes[i%2*2], Interleave: true}
 				cases = append(cases, lib.Case{Seed: s.Seed, Kind: s.DKind + "/interleaved/" + s.Mode, Spec: lib.MustSpec(s)})
 				i++
+			}
+		}
+	}
+	// the patcher's way in: a pool bowl whose output pool is the validating pool
+	j := 0
+	for _, ss := range []int64{0, 1, lib.BS - 1, lib.BS, lib.BS + 1, 2*lib.BS + 77, 5 * lib.BS} {
+		for _, dk := range c18DKinds(ss) {
+			for _, via := range []string{"bowl-writer", "bowl-transpose"} {
+				for mi, m := range []string{"error-stop", "wound", "wound-agg"} {
+					j++
+					if tier != "thorough" && mi > 0 && j%4 != 0 {
+						continue
+					}
+					s := c18Spec{Seed: lib.Mix(seed, 186, uint64(j)), SSize: ss, DKind: dk[0].(string), Arg: dk[1].(int), Slice: []int{-2, lib.BS + 1, 4096, -1}[(j/3)%4], Mode: m, Via: via}
+					cases = append(cases, lib.Case{Seed: s.Seed, Kind: s.DKind + "/" + via + "/" + m, Spec: lib.MustSpec(s)})
+				}
 			}
 		}
 	}
@@ -287,7 +308,36 @@ func c18Run(c lib.Case, env *lib.Env) lib.Result {
 		}
 	}
 	desc := fmt.Sprintf("|S|=%d D=%s(%d) |D|=%d slice=%d mode=%s b*=%d seed=%d", s.SSize, s.DKind, s.Arg, len(D), s.Slice, s.Mode, bstar, s.Seed)
-	w, err := vp.GetWriter(1)
+	var w io.WriteCloser
+	var pb bowl.Bowl
+	if s.Via != "" {
+		desc += " via=" + s.Via
+		var tp lake.Pool = &lib.MemPool{Files: [][]byte{D}}
+		if s.Slice == -2 {
+			tp = &lib.ShortReadPool{Inner: tp, Rng: lib.NewRng(lib.Mix(s.Seed, 9)), EOFWithData: s.Seed%2 == 0}
+		}
+		tcont := &tlc.Container{Files: []*tlc.File{{Path: "old.bin", Size: int64(len(D)), Mode: 0o644}}, Size: int64(len(D))}
+		pb, err = bowl.NewPoolBowl(bowl.PoolBowlParams{TargetContainer: tcont, SourceContainer: cont, TargetPool: tp, OutputPool: vp})
+		if err == nil {
+			err = pb.Resume(nil)
+		}
+		if err != nil {
+			res.Violate("poolbowl-error", desc, err.Error())
+			return res
+		}
+	}
+	switch s.Via {
+	case "bowl-writer":
+		ew, e := pb.GetWriter(1)
+		if e == nil {
+			_, e = ew.Resume(nil)
+		}
+		err = e
+		w = &c18EntryW{ew}
+	case "bowl-transpose":
+	default:
+		w, err = vp.GetWriter(1)
+	}
 	if err != nil {
 		res.Violate("getwriter-error", desc, err.Error())
 		return res
@@ -318,7 +368,7 @@ func c18Run(c lib.Case, env *lib.Env) lib.Result {
 	var firstErr error
 	errAt := -1
 	off := 0
-	for off < len(D) {
+	for off < len(D) && w != nil {
 		feedOther(lib.BS/2 + 11)
 		n := s.Slice
 		switch {
@@ -350,10 +400,26 @@ func c18Run(c lib.Case, env *lib.Env) lib.Result {
 		}
 		res.Add("interleaved_writer_pairs", 1)
 	}
-	cerr := w.Close()
+	var cerr error
+	if w != nil {
+		cerr = w.Close()
+		if ew, ok := w.(*c18EntryW); ok && ew.EntryWriter.Tell() != int64(off) && firstErr == nil {
+			res.Violate("entry-writer-tell-wrong", desc, fmt.Sprintf("Tell()=%d after %d bytes", ew.EntryWriter.Tell(), off))
+		}
+	} else {
+		// whole-file copy out of the target pool (io.CopyBuffer decides the write sizes; a failed Write ends the copy)
+		cerr = pb.Transpose(bowl.Transposition{TargetIndex: 0, SourceIndex: 1})
+		res.Add("transpositions_into_validating_pool", 1)
+	}
 	if firstErr == nil && cerr != nil {
 		firstErr = cerr
 		errAt = len(D)
+	}
+	if pb != nil {
+		if e := pb.Commit(); e != nil {
+			res.Violate("poolbowl-commit-error", desc, e.Error())
+		}
+		res.Add("pool_bowl_lifetimes", 1)
 	}
 	if woundMode {
 		close(vp.Wounds)
@@ -467,11 +533,23 @@ func c18Run(c lib.Case, env *lib.Env) lib.Result {
 			}
 		}
 	}
-	res.Feat = []string{fmt.Sprintf("S=%d|%s|slice=%d|%s", s.SSize, s.DKind, s.Slice, s.Mode)}
+	res.Feat = []string{fmt.Sprintf("S=%d|%s|slice=%d|%s%s", s.SSize, s.DKind, s.Slice, s.Mode, s.Via)}
 	if c.ID%211 == 0 {
 		res.Sample = map[string]interface{}{"signedSize": s.SSize, "written": s.DKind, "arg": s.Arg, "writtenLen": len(D), "slice": s.Slice, "mode": s.Mode, "firstBadBlock": bstar, "innerBytes": len(got), "wounds": len(wounds)}
 	}
 	return res
+}
+
+// c18EntryW drives a bowl entry writer the way the patcher does: Write..., Finalize, Close.
+type c18EntryW struct{ bowl.EntryWriter }
+
+func (w *c18EntryW) Close() error {
+	ferr := w.EntryWriter.Finalize()
+	cerr := w.EntryWriter.Close()
+	if ferr != nil {
+		return ferr
+	}
+	return cerr
 }
 
 func woundList(ws []*pwr.Wound) string {
@@ -497,7 +575,7 @@ func init() {
 	lib.Register(&lib.Property{
 		ID:          "C18",
 		Level:       "exploration",
-		Rule:        "signed content S of {0,1,B-1,B,B+1,2B,2B+77,5B} bytes; written data D = S, every block-aligned prefix, non-aligned prefixes, S with one flipped bit in every non-empty subset of its blocks (<=5 blocks), one block deleted / duplicated / two adjacent swapped (a wrong block then equals the next signed block), S extended by {1,B-1,B,B+1}; write slicings {1 (small S), 7, 4096, B-1, B, B+1, 2B+5, all, random}; modes: error (driver stops after a failed Write and Closes; or ignores the error and keeps writing), wound (raw and through AggregateWounds). The inner pool records every byte it receives. Oracle: block-wise comparison against S by the harness. distinct = distinct (|S|, D kind, slicing, mode)",
+		Rule:        "signed content S of {0,1,B-1,B,B+1,2B,2B+77,5B} bytes; written data D = S, every block-aligned prefix, non-aligned prefixes, S with one flipped bit in every non-empty subset of its blocks (<=5 blocks), one block deleted / duplicated / two adjacent swapped (a wrong block then equals the next signed block), S extended by {1,B-1,B,B+1}; write slicings {1 (small S), 7, 4096, B-1, B, B+1, 2B+5, all, random}; modes: error (driver stops after a failed Write and Closes; or ignores the error and keeps writing), wound (raw and through AggregateWounds). The same (S, D) classes are also written the patcher's way: through a pool bowl whose output pool is the validating pool, by its entry writer (Resume(nil), Write.., Finalize, Close, Tell checked) and by Transpose out of a target pool holding D (plain and short-reading). The inner pool records every byte it receives. Oracle: block-wise comparison against S by the harness. distinct = distinct (|S|, D kind, slicing, mode)",
 		Assumptions: []string{"blocks beyond the signed block count are only required to be wounds, their ranges are not judged", "with the aggregating filter a beyond-signed wound may be merged into a preceding wound"},
 		Cases:       c18Cases,
 		Run:         c18Run,
